@@ -247,6 +247,14 @@ func c05Run(inI interface{}, env *Env) *Failure {
 		{"another secret", func() filesystem.Filespace { return mk(in.Cipher, in.Secret+"x", in.Salt, in.HostOnly) }},
 		{"another salt", func() filesystem.Filespace { return mk(in.Cipher, in.Secret, "x"+in.Salt, in.HostOnly) }},
 	}
+	// ... or only in outer white space
+	for _, ws := range []string{" ", "\n"} {
+		ws := ws
+		others = append(others,
+			other{"another secret", func() filesystem.Filespace { return mk(in.Cipher, in.Secret+ws, in.Salt, in.HostOnly) }},
+			other{"another secret", func() filesystem.Filespace { return mk(in.Cipher, ws+in.Secret, in.Salt, in.HostOnly) }},
+			other{"another salt", func() filesystem.Filespace { return mk(in.Cipher, in.Secret, in.Salt+ws, in.HostOnly) }})
+	}
 	if n := len(in.Secret); n > 0 {
 		for _, i := range []int{0, n / 2, n - 1} {
 			i := i
